@@ -56,9 +56,18 @@ func c01(args []string) error {
 			L = 1
 		}
 		ninit := r.Intn(5)
+		// many rows sharing a few base names (auto-renamed on insertion), later renamed back to duplicates
+		big := isAlign && r.Intn(10) == 0
+		if big {
+			ninit = 13 + r.Intn(12)
+		}
 		initN, initS := []string{}, []string{}
 		for k := 0; k < ninit; k++ {
-			initN = append(initN, name())
+			if big {
+				initN = append(initN, []string{"a", "b", "s1"}[r.Intn(3)])
+			} else {
+				initN = append(initN, name())
+			}
 			l := L
 			if !isAlign {
 				l = r.Intn(6)
@@ -89,7 +98,13 @@ func c01(args []string) error {
 		for sidx := 0; sidx < nsteps && !bad; sidx++ {
 			var opterm string
 			var f func() error
-			kind := r.Intn(21)
+			stopOnErr := false
+			kind := r.Intn(23)
+			if big && sidx == 0 {
+				kind = 100
+			} else if big && sidx == 1 {
+				kind = 10
+			}
 			curL := L
 			if isAlign && al.Length() >= 0 {
 				curL = al.Length()
@@ -166,6 +181,52 @@ func c01(args []string) error {
 				}
 				opterm = "BRename " + coqList(it)
 				f = func() error { sb.Rename(m); return nil }
+			case 100: // several rows renamed to one name
+				m := map[string]string{}
+				it := []string{}
+				for q := 0; q < sb.NbSequences(); q++ {
+					nm, _ := sb.GetSequenceNameById(q)
+					if r.Intn(2) == 0 {
+						continue
+					}
+					v := []string{"a", "b", "s1", "ab"}[r.Intn(4)]
+					if _, ok := m[nm]; ok {
+						continue
+					}
+					m[nm] = v
+					it = append(it, fmt.Sprintf("(%s, %s)", coqStr(nm), coqStr(v)))
+				}
+				opterm = "BRename " + coqList(it)
+				f = func() error { sb.Rename(m); return nil }
+			case 21, 22: // Concat with rows shared and not shared, often narrow
+				if !isAlign {
+					continue
+				}
+				k := r.Intn(5)
+				cl := 1 + r.Intn(4)
+				if r.Intn(4) == 0 {
+					cl = 5 + r.Intn(12)
+				}
+				calpha := alpha
+				if r.Intn(15) == 0 {
+					calpha = align.AMINOACIDS
+				}
+				oth := align.NewAlign(calpha)
+				for q := 0; q < k; q++ {
+					nm := name()
+					if sb.NbSequences() > 0 && r.Intn(3) == 0 {
+						nm, _ = sb.GetSequenceNameById(r.Intn(sb.NbSequences()))
+					}
+					if _, ok := oth.GetSequence(nm); ok {
+						continue
+					}
+					oth.AddSequence(nm, seqOfLen(cl), "")
+				}
+				var oa align.Alignment = oth
+				on, os := alignContent(oa)
+				opterm = fmt.Sprintf("BConcat %s %s", coqZ(calpha), coqRows(on, os))
+				f = func() error { return al.Concat(oa) }
+				stopOnErr = true
 			case 7:
 				old := []string{"a", "_", "s1", "b", "x"}[r.Intn(5)]
 				nw := []string{"", "b", "zz", "a"}[r.Intn(4)]
@@ -279,6 +340,9 @@ func c01(args []string) error {
 			}
 			steps = append(steps, fmt.Sprintf("(%s, %s)", opterm, observe(sb, al, class)))
 			hist = append(hist, opterm+" => "+class)
+			if stopOnErr && class != OutOk {
+				break
+			}
 		}
 		term := fmt.Sprintf("mk %s %s %s %s %s", coqBool(isAlign), coqZ(alpha), coqRows(initN, initS), coqStrList(c01Universe), coqList(steps))
 		fn, fs := alignContent(sb)
